@@ -2366,6 +2366,11 @@ func (c *RegionCache) loadRegion(bo *retry.Backoffer, key []byte, isEndKey bool,
 		ctx = opentracing.ContextWithSpan(ctx, span1)
 	}
 
+	if isEndKey && len(key) == 0 {
+		// The empty end key is the point at +inf, which only the last region contains.
+		return c.loadLastRegion(bo)
+	}
+
 	var backoffErr error
 	searchPrev := false
 	opts = append(opts, opt.WithBuckets())
@@ -2415,6 +2420,25 @@ func (c *RegionCache) loadRegion(bo *retry.Backoffer, key []byte, isEndKey bool,
 			continue
 		}
 		return newRegion(bo, c, reg)
+	}
+}
+
+// loadLastRegion loads the region whose end key is unbounded by scanning the regions from PD in key order.
+func (c *RegionCache) loadLastRegion(bo *retry.Backoffer) (*Region, error) {
+	startKey := []byte{}
+	for {
+		regions, err := c.scanRegions(bo, startKey, nil, defaultRegionsPerBatch)
+		if err != nil {
+			return nil, err
+		}
+		if len(regions) == 0 {
+			return nil, errors.New("PD returned no region when locating the last region")
+		}
+		last := regions[len(regions)-1]
+		if len(last.EndKey()) == 0 {
+			return last, nil
+		}
+		startKey = last.EndKey()
 	}
 }
 
